@@ -426,6 +426,7 @@ impl Runner {
         self.counter = 0;
         self.scen_id = sc["id"].as_str().unwrap_or("?").to_string();
         self.rt_flavor = sc.get("rt").and_then(|x| x.as_str()).unwrap_or("ct").to_string();
+        tree::BIG.store(sc.get("mode").and_then(|x| x.as_str()) == Some("big"), std::sync::atomic::Ordering::SeqCst);
         self.log.emit(json!({"ev": "scenario", "id": self.scen_id, "props": sc.get("props").cloned().unwrap_or(json!([])),
                              "mode": sc.get("mode").and_then(|x| x.as_str()).unwrap_or("clean")}));
         if sc.get("no_create").and_then(|x| x.as_bool()).unwrap_or(false) {
@@ -635,7 +636,7 @@ impl Runner {
         let (h, m, s, excl, owner) = Self::backup_options(st);
         let src_paths: BTreeSet<Vec<Vec<u8>>> = src_tree.iter().map(|n| n.p.clone()).collect();
         let injected = plan.crash_at.is_some() || !plan.fail.is_empty() || plan.fail_p > 0.0;
-        self.log.emit(json!({"ev": "call", "actor": actor, "fn": "backup", "brk": false, "H": h.min(1_000_000_000), "M": m.min(1_000_000_000),
+        self.log.emit(json!({"ev": "call", "actor": actor, "fn": "backup", "brk": false, "follow": !tree::BIG.load(std::sync::atomic::Ordering::SeqCst), "H": h.min(1_000_000_000), "M": m.min(1_000_000_000),
             "S": s.min(1_000_000_000), "excl": excl, "match": match_facts(&excl, &src_paths), "owner": owner,
             "bands": [], "dry": false, "injected": injected, "own_tree": own_tree,
             "tree": if own_tree { tree::tree_json(src_tree) } else { json!([]) }}));
@@ -694,7 +695,7 @@ impl Runner {
         let dry = st.get("dry").and_then(|x| x.as_bool()).unwrap_or(false);
         let break_lock = st.get("break_lock").and_then(|x| x.as_bool()).unwrap_or(false);
         let injected = plan.crash_at.is_some() || !plan.fail.is_empty() || plan.fail_p > 0.0;
-        self.log.emit(json!({"ev": "call", "actor": actor, "fn": "delete", "brk": break_lock, "H": 0, "M": 0, "S": 0, "excl": [], "match": [], "owner": true,
+        self.log.emit(json!({"ev": "call", "actor": actor, "fn": "delete", "brk": break_lock, "follow": true, "H": 0, "M": 0, "S": 0, "excl": [], "match": [], "owner": true,
             "bands": bands, "dry": dry, "injected": injected, "own_tree": false, "tree": []}));
         let icpt = ActorIcpt::new(&actor, &self.arch, self.log.clone(), plan, sched.clone());
         let mon = TestMonitor::arc();
